@@ -18,6 +18,8 @@ import (
 	"time"
 	"unsafe"
 
+	logslog "log/slog"
+
 	"github.com/hedzr/logg/slog"
 	errorsv3 "gopkg.in/hedzr/errors.v3"
 )
@@ -47,6 +49,7 @@ type poolCall struct {
 	Thru    bool // WriteThru with an explicit timestamp (bytes comparable exactly)
 	ArgKind int
 	Blank   bool // a blank Println(): no arguments at all
+	Slog    bool // through a log/slog logger derived (per goroutine) from one shared WithGroup handler
 }
 
 type poolEnv struct {
@@ -58,6 +61,34 @@ type poolEnv struct {
 	slow    bool
 	ts      time.Time
 	rec     *poolRecorder
+	hmu     sync.Mutex
+	hgrp    map[int]*logslog.Logger    // per logger: log/slog logger on it, WithGroup("req") - shared by all goroutines
+	hchild  map[[2]int]*logslog.Logger // per (goroutine, logger): With("worker", g) derived from the shared one
+}
+
+// slogChild: the goroutine's own log/slog logger, derived on first use (concurrently with the others)
+// from the ONE handler all goroutines share for that logger.
+func (e *poolEnv) slogChild(g, li int) *logslog.Logger {
+	e.hmu.Lock()
+	grp := e.hgrp[li]
+	c := e.hchild[[2]int{g, li}]
+	e.hmu.Unlock()
+	if c == nil {
+		c = grp.With("worker", g) // derived outside the lock: goroutines derive from the shared handler at the same time
+		e.hmu.Lock()
+		e.hchild[[2]int{g, li}] = c
+		e.hmu.Unlock()
+	}
+	return c
+}
+
+// slogBases puts one log/slog handler on every logger (configuration: done before any concurrent logging)
+func (e *poolEnv) slogBases() {
+	e.hgrp, e.hchild = map[int]*logslog.Logger{}, map[[2]int]*logslog.Logger{}
+	for li, l := range e.loggers {
+		h := slog.NewSlogHandler(l, &slog.HandlerOptions{NoColor: !l.ColorMode(), JSON: l.JSONMode(), Level: l.Level()})
+		e.hgrp[li] = logslog.New(h).With("base", li).WithGroup("req")
+	}
 }
 
 type poolRecorder struct {
@@ -137,6 +168,7 @@ func newPoolEnv(nLoggers int) *poolEnv {
 		}
 		e.loggers = append(e.loggers, c)
 	}
+	e.slogBases()
 	return e
 }
 
@@ -172,6 +204,12 @@ func (e *poolEnv) issue(c *poolCall) {
 		} else {
 			l.Println(c.Msg)
 		}
+		return
+	}
+	if c.Slog {
+		lv := map[slog.Level]logslog.Level{slog.InfoLevel: logslog.LevelInfo, slog.WarnLevel: logslog.LevelWarn,
+			slog.ErrorLevel: logslog.LevelError, slog.DebugLevel: logslog.LevelDebug}[c.Sev]
+		e.slogChild(c.G, c.Logger).Log(context.Background(), lv, c.Msg, "id", c.ID, "kind", c.ArgKind, logslog.Group("in", "g", c.G, "c", c.C))
 		return
 	}
 	if c.Thru {
@@ -253,6 +291,9 @@ func poolStress(args []string) int {
 			}
 			if rng.Intn(12) == 0 { // a blank Print/Println: delivered as a single newline
 				pc.Sev, pc.Msg, pc.Blank, pc.Thru = slog.AlwaysLevel, []string{"", " ", "\n"}[rng.Intn(3)], true, false
+			}
+			if !pc.Blank && rng.Intn(6) == 0 && (pc.Sev == slog.InfoLevel || pc.Sev == slog.WarnLevel || pc.Sev == slog.ErrorLevel || pc.Sev == slog.DebugLevel) {
+				pc.Slog, pc.Thru = true, false
 			}
 			calls = append(calls, pc)
 			perG[g] = append(perG[g], pc)
